@@ -68,6 +68,17 @@ def us(tier="quick"):
     return out
 
 
+def near_special_us():
+    """the encodings of 9, 0 and 1 with every single other bit flipped (a shortcut keyed on 'looks like the base point' must test all 32 bytes)"""
+    out = []
+    for v in (9, 0, 1):
+        for i in range(256):
+            b = le(v ^ (1 << i))
+            if b not in out:
+                out.append(b)
+    return out
+
+
 def cases(tier, part=None, nparts=1):
     """build-independent case list (also used by C17 and C20); part/nparts select every nparts-th scalar"""
     out = []
@@ -82,6 +93,14 @@ def cases(tier, part=None, nparts=1):
         out.append((["curve25519_base %s" % H(s), "x25519_base %s" % H(s), "curve25519 %s %s" % (H(s), H(curve.BASE_U))], [b, b, b], None))
     if part in (None, 0):
         out += cases_tail()
+    # near-special u values under three scalars
+    NS = near_special_us()
+    for j, u in enumerate(NS):
+        if part is not None and j % nparts != part:
+            continue
+        for s in (le(1 << 254), pat(5, 0, 32), b"\xff" * 32):
+            r = obs_of(curve.x25519(s, u))
+            out.append((["curve25519 %s %s" % (H(s), H(u)), "x25519_dh %s %s" % (H(s), H(u))], [r, r], None))
     return out
 
 
